@@ -228,8 +228,7 @@ impl Inv {
 
     fn census_tokens(&mut self, text: &str) {
         // crude but deterministic token-text census for gated constructs
-        let pats: [(&str, &str); 12] = [
-            ("unsafe extern", "unsafe_extern"),
+        let pats: [(&str, &str); 11] = [
             ("offset_of !", "offset_of"),
             ("from_bytes_with_nul_unchecked", "cstr_from_bytes_unchecked"),
             (":: core :: ffi :: c_", "core_ffi_ctypes"),
@@ -246,6 +245,21 @@ impl Inv {
             let n = text.matches(p).count() as u64;
             if n > 0 {
                 self.bump(k, n);
+            }
+        }
+        // ABI strings of bare function types (`extern "X" fn (..)` inside typedefs, fields, parameters): same gates as extern blocks
+        let mut rest = text;
+        while let Some(i) = rest.find("extern \"") {
+            let after = &rest[i + 8..];
+            if let Some(j) = after.find('"') {
+                let abi = &after[..j];
+                if after[j + 1..].trim_start().starts_with("fn") {
+                    self.bump(&format!("abi:{abi}"), 1);
+                    self.bump("fnptr_abi_strings", 1);
+                }
+                rest = &after[j + 1..];
+            } else {
+                break;
             }
         }
     }
@@ -327,6 +341,10 @@ impl Inv {
                     let block_attrs = attr_strings(&fm.attrs, true);
                     let unsafety = fm.unsafety.is_some();
                     *self.census.entry(format!("abi:{abi}")).or_insert(0) += 1;
+                    if unsafety {
+                        // `unsafe extern "X" { .. }` blocks (1.82); `unsafe extern "X" fn(..)` pointer types are as old as Rust
+                        self.bump("unsafe_extern", 1);
+                    }
                     let mut members = vec![];
                     for fi in &fm.items {
                         let (kind, name, attrs, sig) = match fi {
